@@ -502,3 +502,57 @@ def own1(cfg):
                 res.find(f, k[1], 'the node released from its unique_ptr at %s is neither stored into the tree nor handed to another owner before this return: it is leaked (and stays counted in the node statistics and memory use)' % fileline(e.get('loc')), key='OWN-1:leak', config=cfg.name)
     res.floor('release sites', 12)
     return res
+
+
+def acc5(cfg):
+    """ACC-5: statistics of the concurrent index are updated by atomic read-modify-write operations only"""
+    from .. import atomics
+    res = RuleResult('ACC-5', 'in olc_db every update of a statistics counter (node counts, memory use, growth / shrink counters, prefix splits - std::atomic members) is ONE atomic read-modify-write (fetch_add / fetch_sub / ++ / --); a value stored into a counter is never computed from a load of the same counter (a load followed by a store loses concurrent updates, so the reported numbers stop being a function of the key set); plain stores write constants (reset in clear(), construction)')
+    n = 0
+    for f in cfg.functions:
+        if not f.blocks or not f.cls.startswith('unodb::olc_db<') or '::iterator' in f.cls:
+            continue
+        inits = {}
+        for b, i, e in f.elements():
+            if e.get('k') == 'decl':
+                for v in e['vars']:
+                    if 'init' in v:
+                        inits[v['did']] = v['init']
+
+        def target_sig(o, depth=0):
+            """signature of the atomic object, through reference locals"""
+            x = f.strip_casts(o)
+            if isinstance(x, dict) and x.get('k') == 'ref' and x.get('vk') == 'local' and x.get('did') in inits and depth < 4 and '&' in (x.get('t') or '') + '&' * int('&' in str(next((v.get('t') for b_, i_, e_ in f.elements() if e_.get('k') == 'decl' for v in e_['vars'] if v['did'] == x['did']), ''))):
+                return target_sig(inits[x['did']], depth + 1)
+            return lval_sig_deep(f, o)
+        for b, i, e in f.elements():
+            if e.get('k') != 'call' or is_assert_elem(e) or not atomics.is_atomic_call(e):
+                continue
+            nm = e.get('name')
+            if nm not in ('store', 'operator=') or not e.get('args'):
+                continue
+            obj = e.get('obj') if e.get('obj') is not None else e['args'][0]
+            val = e['args'][0] if e.get('obj') is not None else (e['args'][1] if len(e['args']) > 1 else None)
+            ts = target_sig(obj)
+            if ts is None or not ts.startswith('this.') or val is None:
+                continue
+            n += 1
+            res.functions.add(f.sig)
+            loads = []
+
+            def v(x):
+                if x.get('k') == 'call' and atomics.is_atomic_call(x) and (x.get('name') in ('load',) or x.get('ck') == 'conv'):
+                    o2 = x.get('obj') if x.get('obj') is not None else (x['args'][0] if x.get('args') else None)
+                    if o2 is not None:
+                        loads.append(target_sig(o2))
+                if x.get('k') == 'ref' and x.get('vk') == 'local' and x.get('did') in inits:
+                    f.walk(inits[x['did']], v)
+            f.walk(val, v)
+            ok = ts not in loads
+            res.ob(ok, {'rule': 'ACC-5', 'function': sh(f.name)[:80], 'site': fileline(e.get('loc')), 'counter': ts, 'verdict': 'stores a value independent of the counter' if ok else 'VIOLATION'})
+            if not ok:
+                res.find(f, e.get('loc'), 'statistics counter `%s` is updated by a separate load and store: two concurrent operations both read the old value and one update is lost - after parallel inserts / removes the reported count no longer equals the number of nodes (and wraps below zero when the index is emptied)' % ts.replace('this.', ''), key='ACC-5:%s' % f.short, config=cfg.name)
+    res.count('plain stores into olc_db counters', n)
+    if '-stats-' in cfg.name:
+        res.floor('plain stores into olc_db counters', 5)
+    return res
